@@ -662,6 +662,71 @@ def b12(ctx, rid):
         raise core.AnchorLost('fresh filter constructions in src/blob: %d' % n)
 
 
+def b13(ctx, rid):
+    """the candidate iterator visits every live child: `Iterator::next` returning None ends the whole traversal, so a leaf whose
+    child slot was vacated (pop / restore) must be skipped when the traversal reaches it - it may only be pushed on the stack
+    after get_child(..) was seen to be Some.  Otherwise every blob behind the first vacated slot is never consulted and reads
+    answer NotFound for stored keys."""
+    prog = ctx.prog
+    adt = prog.adts.get('filter::hierarchical::Inner')
+    if adt is None:
+        raise core.AnchorLost('filter::hierarchical::Inner')
+    names = [v['name'] for v in adt['variants']]
+    leaf_idx = names.index('Leaf')
+    n = 0
+    for f in prog.fns.values():
+        if f.file != 'src/filter/hierarchical.rs' or not f.id.endswith('::next') or 'PossibleRevIter' not in f.id:
+            continue
+        pushes = [c for c in f.calls if c.name == 'push' and c.path.startswith('std::vec::Vec') and c.bb in f.reachable()]
+        if not pushes:
+            continue
+        leaf_edges = []
+        for i in f.reachable():
+            t = f.blocks[i]['t']
+            if t['k'] != 'switch':
+                continue
+            for (bb, si, kind, r) in f.defs().get(op_local(t['o']), []):
+                if kind == 'assign' and r['k'] == 'discr' and (core.place_type_str(f, r['p']) or '').lstrip('&').startswith('filter::hierarchical::Inner<'):
+                    vals = dict((v, tg) for v, tg in t['vals'])
+                    if leaf_idx in vals:
+                        leaf_edges.append(vals[leaf_idx])
+                    else:
+                        leaf_edges.append(t['otherwise'])
+        checks = []
+        for c in f.calls:
+            if c.name in ('is_none', 'is_some') and c.path.startswith('std::option::Option') and c.bb in f.reachable():
+                if not any(o.kind == 'call' and o.data.name == 'get_child' for o in core.origins(f, c.args[0])):
+                    continue
+                carry = core.flows_forward(f, c.dest[0])
+                for j in f.reachable():
+                    t = f.blocks[j]['t']
+                    if t['k'] == 'switch' and op_local(t['o']) in carry:
+                        for v, tg in t['vals']:
+                            if (v == 0) == (c.name == 'is_none'):
+                                checks.append(tg)
+                        if c.name == 'is_some' and all(v == 0 for v, _ in t['vals']):
+                            checks.append(t['otherwise'])
+        # `if let Some(..) = get_child(..)` form
+        for i in f.reachable():
+            t = f.blocks[i]['t']
+            if t['k'] != 'switch':
+                continue
+            for (bb, si, kind, r) in f.defs().get(op_local(t['o']), []):
+                if kind == 'assign' and r['k'] == 'discr' and any(o.kind == 'call' and o.data.name == 'get_child' for o in core.origins(f, r['p'][0])):
+                    checks += [tg for v, tg in t['vals'] if v == 1]
+        for p in pushes:
+            n += 1
+            key = 'vacated-leaf-not-pushed|%s' % f.id
+            if not leaf_edges:
+                ctx.bad(rid, key, p.where(), 'no distinction between node and leaf before the push on the traversal stack')
+            elif p.bb in f.reach_from(leaf_edges, avoid_enter=checks + [c.bb for c in f.calls if c.name in ('last', 'get_inner') and c.bb in f.reachable()]):
+                ctx.bad(rid, key, p.where(), 'a leaf can be pushed on the traversal stack without its child slot having been seen occupied: when the traversal pops a vacated leaf, get_child(..) is None, `next` returns None and the iteration ends - every blob behind the first vacated slot is never consulted (reads answer NotFound for stored keys)')
+            else:
+                ctx.ok(rid, key, p.where(), 'leafs are pushed only after get_child(..) was seen to be Some')
+    if n < 1:
+        raise core.AnchorLost('stack pushes in PossibleRevIter::next: %d' % n)
+
+
 RULES = [
     Rule('C10.B1', 'every `definitely absent` answer lies in its owner and is controlled by that owner\'s justifying test; defaults are NeedAdditionalCheck', b1, 11),
     Rule('C10.B2', 'filter.add(key) dominates every insertion into the in-memory header map', b2, 2),
@@ -674,5 +739,6 @@ RULES = [
     Rule('C10.B10', 'bloom filters are merged only when hasher count and bit length are equal', b10, 2),
     Rule('C10.B11', 'Bloom.bits_count and the length of the in-memory bit vector are the same value at every construction and store', b11, 4),
     Rule('C10.B12', 'a fresh bloom / range filter is only attached to an index without records', b12, 2),
+    Rule('C10.B13', 'the candidate iterator never pushes a vacated leaf (its None would end the whole traversal)', b13, 1),
     Rule('C10.B9', 'the range merge can extend both bounds in one call', b9, 1),
 ]
